@@ -1,19 +1,20 @@
 \* C05 quick: every sequence (any length) of the 11 guard operations over 1 alternative
-\* module / name / property value, completions new{rec1,dflt,dfltL} with{rec2,dflt}
-\* complete_with{rec3,dfltL,ok,err,errM}, 6 clock scripts (forwards, backwards, standing still, no
-\* reading at start / at completion / at all), both filter verdicts, forms
-\* none/plain/setup/result/resultM/guard/newspan, operations inside and after the frame;
-\* complete / complete_with / drop also while the thread is unwinding.
+\* module / name / property value; default completions with level / panic level each absent or
+\* present: new{rec1,dflt,dfltl,dfltp,dfltL} with{rec2,dfltl} complete_with{rec3,dfltp,ok,err};
+\* macro result completions with ok_lvl / err_lvl / err-mapper each absent or present
+\* {ok,okD,err,errD,errM,errMD}; 4 clock scripts (forwards, backwards, no reading at start / at
+\* completion), both filter verdicts, forms none/plain/setup/result{,_o,_e}/resultM{,_m}/guard/
+\* newspan, operations inside and after the frame; terminals also while the thread is unwinding.
 SPECIFICATION Spec
 CONSTANTS
     Mdls = {"m1"}
     Names = {"n1"}
     PropVals = {1}
-    NewComps = {"rec1", "dflt", "dfltL"}
-    WithComps = {"rec2", "dflt"}
-    CwComps = {"rec3", "dfltL", "ok", "err", "errM"}
-    Scripts <- MC_ScriptsThorough
-    Forms = {"none", "plain", "setup", "result", "resultM", "guard", "newspan"}
+    NewComps = {"rec1", "dflt", "dfltl", "dfltp", "dfltL"}
+    WithComps = {"rec2", "dfltl"}
+    CwComps = {"rec3", "dfltp", "ok", "okD", "err", "errD", "errM", "errMD"}
+    Scripts <- MC_ScriptsQuick
+    Forms = {"none", "plain", "setup", "result", "result_o", "result_e", "resultM", "resultM_m", "guard", "newspan"}
     Frames = {"in", "out"}
     MaxLen = 0
     F2Bug = FALSE
